@@ -313,7 +313,7 @@ func I5(rc *RC) {
 			continue
 		}
 		buf := wr[1]
-		if !regexp.MustCompile(`(?s)` + regexp.QuoteMeta(buf) + `\[[^\n]*\$in\[`).MatchString(txt) && !regexp.MustCompile(regexp.QuoteMeta(buf)+`[^\n]*\$in\[`).MatchString(txt) {
+		if !regexp.MustCompile(`(?s)`+regexp.QuoteMeta(buf)+`\[[^\n]*\$in\[`).MatchString(txt) && !regexp.MustCompile(regexp.QuoteMeta(buf)+`[^\n]*\$in\[`).MatchString(txt) {
 			bad = append(bad, "the buffer written to the hash is not filled from the elements of the argument")
 		}
 	}
